@@ -1219,8 +1219,7 @@ func (repo *Repository) load(ctx context.Context, depth int) error {
 		return errors.New("No branches to load")
 	}
 
-	branches := make(Branches, 0, indexCount)
-	pruneHeight := -1
+	loadedBranches := make(Branches, 0, indexCount)
 	for i := uint32(0); i < indexCount; i++ {
 		hash := &bitcoin.Hash32{}
 		if err := hash.Deserialize(indexBuf); err != nil {
@@ -1232,10 +1231,15 @@ func (repo *Repository) load(ctx context.Context, depth int) error {
 			return errors.Wrapf(err, "branch %s", hash)
 		}
 
-		if i == 0 { // use height of first branch since it is the longest
-			pruneHeight = branch.Height() - depth
-		}
+		loadedBranches = append(loadedBranches, branch)
+	}
 
+	// Prune relative to the branch with the most work. It is not the first branch when the
+	// branches were saved before the longest branch was consolidated into the main branch.
+	pruneHeight := loadedBranches.Longest().Height() - depth
+
+	branches := make(Branches, 0, indexCount)
+	for _, branch := range loadedBranches {
 		if branch.Height() < pruneHeight {
 			logger.InfoWithFields(ctx, []logger.Field{
 				logger.String("branch", branch.Name()),
